@@ -12,6 +12,7 @@ import (
 	"time"
 
 	"github.com/pion/webrtc/v4/internal/verif/vkit"
+	"github.com/pion/webrtc/v4/internal/verif/vsched"
 )
 
 type c22In struct {
@@ -219,4 +220,55 @@ func TestVerifC22(t *testing.T) {
 	})
 	c.Set("sequences", nseq)
 	pc.isClosed.Store(false)
+	c22CloseWindow(t, c)
+}
+
+// c22CloseWindow — part 3: the handler must also be invoked only on a change when the update
+// races with Close(): every interleaving (<= 1 preemption) of Close() with an ICE agent state
+// callback on a connection whose transports are starting. "closed" is absorbing, so it can be
+// reported at most once whatever the order in which the handler goroutines run.
+func c22CloseWindow(t *testing.T, c *vkit.Check) {
+	vsched.ICEMode.Store(vsched.ICEBlock)
+	vpPool(t)
+	for _, sc := range []c21Scenario{{"stable", "C", "ICE-disconnected"}, {"stable", "C", "ICE-failed"}, {"stable", "G", "ICE-disconnected"}} {
+		sc := sc
+		check := func(r *vsched.Result, obs any) bool {
+			w, _ := obs.(*vpWorld)
+			c.Eval()
+			c.Validated()
+			c.TransitionN(r.Steps)
+			if r.Outcome != vsched.Completed {
+				return true // termination is C21's claim
+			}
+			n := 0
+			for _, s := range w.connStates {
+				if s == "closed" {
+					n++
+				}
+			}
+			c.Distinct(fmt.Sprintf("close-window|%s|%v", sc.name(), w.connStates))
+			if n > 1 {
+				body2, w2 := c21Body(t, sc)
+				vsched.Run(vsched.Config{}, r.Choices, nil, body2)
+				n2 := 0
+				for _, s := range w2.connStates {
+					if s == "closed" {
+						n2++
+					}
+				}
+				if n2 == n {
+					c.Violation("handler|close-window|closed-reported-twice", fmt.Sprintf("scenario %s: the connection-state handler was invoked %d times with closed: %v", sc.name(), n, w.connStates),
+						map[string]any{"scenario": sc, "choices": r.Choices})
+				}
+			}
+
+			return true
+		}
+		bound := 1
+		st := vsched.ExploreP(vsched.Config{Bound: bound, Workers: vkit.Workers(), MaxSteps: 50000}, func() (func(), any) { b, w := c21Body(t, sc); return b, w }, check)
+		c.Set("close_window_"+sc.name(), map[string]any{"executions": st.Executions, "by_preemptions": st.ByPreempt, "bound_completed": st.BoundDone})
+		if c.Quick() {
+			break
+		}
+	}
 }
